@@ -1384,7 +1384,7 @@ class Store:
             # (copied, so that the daughters do not share mutable values)
             merged_initial_state = deep_merge(
                 copy.deepcopy(daughter_state),
-                daughter.get('initial_state', {}))
+                copy.deepcopy(daughter.get('initial_state', {})))
 
             daughter_key = daughter['key']
             daughter_path = (daughter_key,)
